@@ -189,8 +189,8 @@ func (ev *Evidence) write(wall time.Duration) {
 		"violations":  ev.Violations,
 	}
 	b, _ := json.MarshalIndent(out, "", " ")
-	os.MkdirAll(filepath.Join(verifRoot, "evidence"), 0o755)
-	os.WriteFile(filepath.Join(verifRoot, "evidence", ev.Property+".json"), b, 0o644)
+	os.MkdirAll(filepath.Join(outRoot, "evidence"), 0o755)
+	os.WriteFile(filepath.Join(outRoot, "evidence", ev.Property+".json"), b, 0o644)
 }
 
 func containsRepo(f string) bool {
